@@ -47,7 +47,25 @@ def slice_arg(form):
     raise ValueError(form)
 
 
+TOUCH = [False]     # touch mode: every intermediate dataset is observed before it is used
+
+
+def _touch(ds):
+    """Observations that must not change anything: keys(), len(), indexable."""
+    for f in (lambda: ds.keys(), lambda: len(ds), lambda: ds.indexable):
+        try:
+            f()
+        except Exception:
+            pass
+    return ds
+
+
 def build(a):
+    ds = _build(a)
+    return _touch(ds) if TOUCH[0] else ds
+
+
+def _build(a):
     op = a['op']
     if op == 'list':
         return lazy_dataset.new([payload(a['pl'], x) for x in a['src']],
